@@ -19,6 +19,7 @@ func init() {
 			c.run("C19-R6", "MUST-PASS: a finished session stops reading the helper, makes it exit, and the exit watcher always arms the cleanup", c19Stream)
 			c.run("C19-R7", "MUST-PASS/GUARD-DOM/WHO-WRITES: the bridge hands traffic on unchanged in both directions, from installed pipes, with the matching helper", c19Bridge)
 			c.run("C19-R8", "LAUNCH: the helper's exit watcher is started with go", c19Launch)
+			c.run("C19-S1", "shared with C05-R4: the filter gives a finished or declined session up, so the next rz/sz header starts a new one", c05R4)
 			c.run("C19-R4", "SIBLING: decline condition and input gate agree", c19R4)
 			c.run("C19-R5", "WHO-WRITES: the 'cleaned' flag", c19R5)
 		})
@@ -290,6 +291,49 @@ func c19R3(c *Ctx) {
 				}
 			}
 			c.check(good, name+"/start-failure=>error-path", c.ipos(ci), "a helper that cannot be started leads to the error path", "a helper start failure is not reported through the error path")
+		}
+	}
+	// universal forms over the helpers every other rule takes as "the outcome": an upload / download attempt always ends
+	// in the bridge or in the error path; the exit guard always arms the kill; re-arming the clean-up always ends with a
+	// running timer whose callback declares the session cleaned
+	{
+		callTo := func(ids ...string) func(ssa.Instruction) bool {
+			return func(in ssa.Instruction) bool {
+				ci, ok := in.(ssa.CallInstruction)
+				return ok && idIs(ids...)(calleeID(ci.Common()))
+			}
+		}
+		for _, name := range []string{"zmodemTransfer.uploadFiles", "zmodemTransfer.downloadFiles"} {
+			g := c.fn(name)
+			hit, path := reachFrom(g.Blocks[0], 0, isReturn, callTo("(*trzsz.zmodemTransfer).handleZmodemStream", "(*trzsz.zmodemTransfer).handleZmodemError"))
+			c.check(hit == nil, name+"/always-bridge-or-error", c.pos(g.Pos()), "the attempt always ends in the bridge or in the error path", "the attempt can return having neither started the bridge nor reported an error: the session hangs with the remote program waiting", c.pathStr(path)...)
+		}
+		ece := c.fn("zmodemTransfer.ensureClientExit")
+		hit, path := reachFrom(ece.Blocks[0], 0, isReturn, func(in ssa.Instruction) bool {
+			g, ok := in.(*ssa.Go)
+			return ok && g.Call.StaticCallee() != nil && g.Call.StaticCallee().Parent() == ece
+		})
+		c.check(hit == nil, "ensureClientExit/always-arms", c.pos(ece.Pos()), "the exit guard is always armed", "the exit guard can return without arming the kill", c.pathStr(path)...)
+		if k := c.Funcs["zmodemTransfer.ensureClientExit$1"]; k != nil {
+			hit, path = reachFrom(k.Blocks[0], 0, isReturn, func(in ssa.Instruction) bool {
+				ci, ok := in.(ssa.CallInstruction)
+				return ok && calleeID(ci.Common()) == "(*os.Process).Kill"
+			})
+			c.check(hit == nil, "ensureClientExit/always-kills", c.pos(k.Pos()), "the armed guard always kills the helper", "the armed guard can end without killing the helper (a helper that hangs after its finish header is immune)", c.pathStr(path)...)
+		}
+		rct := c.fn("zmodemTransfer.resetCleanupTimer")
+		hit, path = reachFrom(rct.Blocks[0], 0, isReturn, callTo("time.AfterFunc"))
+		c.check(hit == nil, "resetCleanupTimer/always-arms", c.pos(rct.Pos()), "re-arming always ends with a running clean-up timer", "re-arming the clean-up can return without a running timer: the session is never declared cleaned", c.pathStr(path)...)
+		if cb := c.Funcs["zmodemTransfer.resetCleanupTimer$1"]; cb != nil {
+			hit, path = reachFrom(cb.Blocks[0], 0, isReturn, func(in ssa.Instruction) bool {
+				ci, ok := in.(ssa.CallInstruction)
+				if !ok || !isAtomicOnField(ci, "cleaned", "Store") {
+					return false
+				}
+				b, isC := constBool(ci.Common().Args[1])
+				return isC && b
+			})
+			c.check(hit == nil, "resetCleanupTimer/callback-always-sets-cleaned", c.pos(cb.Pos()), "the clean-up callback always declares the session cleaned", "the clean-up callback can return without declaring the session cleaned", c.pathStr(path)...)
 		}
 	}
 	ev := c.fn("zmodemTransfer.handleZmodemEvent")
